@@ -27,6 +27,13 @@ func rtRunActions(e *rtEnv, nActions int, maxBatch int) {
 	for step := 0; step < nActions; step++ {
 		nSrcActs := e.nSrc * (maxBatch + 1)
 		a := verifChoose("action", nSrcActs+e.nTgt)
+		if a >= nSrcActs && !e.targets[a-nSrcActs].started {
+			// a target that is not connected yet: the action is "connect"
+			verifAction("connect")
+			e.connectTarget(a - nSrcActs)
+			verifQuiesce()
+			continue
+		}
 		if a < nSrcActs {
 			i := a / (maxBatch + 1)
 			n := a % (maxBatch + 1)
